@@ -210,7 +210,7 @@ pub fn run_sb_check(id: &str, tier: &str, seed: u64) -> i32 {
             (a, n2 + n3 + n4)
         }
         "C12" => {
-            let n = if quick { 600 } else { 20_000 };
+            let n = if quick { 700 } else { 20_000 };
             let a = report::par_acc(n, |r| sb_checks::run_c12(seed, r));
             // coverage guard: the property is only decided where the engine completes the depth
             let d3 = a.counters.get("c12_depth_3_judged").copied().unwrap_or(0);
